@@ -578,7 +578,43 @@ fn run_truncated_composed(ctx: &mut Ctx) {
     }
 }
 
+/// the fixed-length literal generator over sources that yield exactly, fewer or more octets than the
+/// announced length, delivered under several read schedules (model op `fixed_gen`)
+fn run_fixed_generator(ctx: &mut Ctx) {
+    for announced in [0usize, 1, 5, 185, 186, 187, 191, 192, 1000, 8377, 8378, 8379, 70000] {
+        for delta in [-3i64, -1, 0, 1, 2, 600] {
+            let have = announced as i64 + delta;
+            if have < 0 {
+                continue;
+            }
+            let have = have as usize;
+            let seed = announced % 97 + have % 13;
+            let src = pattern(seed, have);
+            let mut answers: Vec<String> = Vec::new();
+            for sched in [vec![], vec![1usize; 64], vec![7, 500, 3], vec![8192]] {
+                let r = guarded(|| pgp::verif_hooks::literal_fixed_generator(ScheduledReader::new(&src, &sched), announced as u32));
+                answers.push(match r {
+                    Ok(Ok(out)) => format!("ok:{}", cksum(&out)),
+                    Ok(Err(_)) => "err".to_string(),
+                    Err(p) => format!("panic {p}"),
+                });
+            }
+            let input = format!("announced={announced} source_yields={have}");
+            ctx.oracle("framing_independent_of_buffering", "LiteralDataFixedGenerator over source schedules", &input, answers.iter().all(|a| *a == answers[0]), &format!("{answers:?}"));
+            ctx.case(format!("fixed_gen n={announced} src={seed}:{have}"), answers[0].clone());
+            // the property, without the model: a clean end is one legal packet carrying the source
+            if let Ok(Ok(out)) = guarded(|| pgp::verif_hooks::literal_fixed_generator(&src[..], announced as u32)) {
+                let (ans, got) = real_deframe(&out);
+                let ok = matches!(&got, Some((b, r)) if b.len() == 6 + have && b[6..] == src[..] && r.is_empty());
+                ctx.oracle("writer_emits_legal_framing", "LiteralDataFixedGenerator", &input, ok, &ans[..ans.len().min(100)]);
+            }
+            ctx.stat("fixed_gen");
+        }
+    }
+}
+
 pub fn run(ctx: &mut Ctx) {
+    run_fixed_generator(ctx);
     run_truncated_composed(ctx);
     run_header_writeback(ctx);
     run_esk_leftovers(ctx);
